@@ -2,6 +2,7 @@ import Victron.Gen.Tables
 import Victron.Model.Cli
 import Victron.Props.C10
 import Victron.Props.C11
+import Victron.Proofs.Cli
 /-
   C20 — The CLI reports what the device holds, end to end.
   Model: `Cli.run` = connect (C11) + read-all (C10) + GetList + printing, over an abstract transport; compared
@@ -129,6 +130,59 @@ theorem all_delivered_printed (tr : Transport) (id : Nat) (rl : RegList) (hc : C
     simp only [List.mem_filterMap, Option.map_eq_some_iff]
     exact ⟨p, hp, r', hr', rfl⟩
 
+/-- the register names of a connected product's list are pairwise distinct (C11 + C12) -/
+theorem connected_names_unique (tr : Transport) (id : Nat) (rl : RegList) (hc : C11.conn tr = .ok (id, rl)) :
+    (rl.all.map (·.name)).Nodup := by
+  obtain ⟨_, hrl, hnone⟩ := C11.connect_product tr id rl hc
+  rw [C12.list_by_class] at hrl hnone
+  unfold ListSpec.specOf at hrl hnone
+  cases hcl : ListSpec.classOf (C12.row id) with
+  | none => rw [hcl] at hnone; simp at hnone
+  | some c =>
+    rw [hcl] at hrl
+    simp only at hrl
+    subst hrl
+    have := C12.lists_ok c
+    unfold ListSpec.listOk at this
+    simp only [Bool.and_eq_true] at this
+    exact ListSpec.noDup_nodup _ this.1.1.1.1.1
+
+/-- **One line per register.** A healthy device of a supported product — every register of the product's list
+    reads successfully — yields status ok, a header count equal to the length of the product's list, exactly
+    that many lines, and for every register of the list a line carrying its name, sort key, unit and the
+    value read from the device (which by C09 is the device's content scaled as the register defines). -/
+theorem run_complete (tr : Transport) (id : Nat) (rl : RegList) (hc : C11.conn tr = .ok (id, rl))
+    (vals : Reg → Val) (hok : ∀ r ∈ rl.all, readReg tr Gen.enums Gen.fieldLists r = .ok (vals r)) :
+    (run tr).status = .ok ∧ (run tr).count = some rl.len ∧ (run tr).lines.length = rl.len ∧
+    ∀ r ∈ rl.all, ⟨r.sort, r.name, vals r, r.unit⟩ ∈ (run tr).lines := by
+  have hnd := connected_names_unique tr id rl hc
+  have hpl : planned rl {} = rl.all := by simp [planned, RegList.all]
+  have hst : stream tr Gen.enums Gen.fieldLists none rl {} =
+      (rl.all.flatMap (fun r => [Ev.read r.address, Ev.cb r.name (vals r)]), none) := by
+    unfold stream; rw [hpl]; exact C10.stream_complete tr Gen.enums Gen.fieldLists rl.all 0 vals hok
+  have hfm : (rl.all.map (fun r => (r.name, vals r))).filterMap
+        (fun p => (rl.all.find? (·.name == p.1)).map (fun r => Line.mk r.sort p.1 p.2 r.unit)) =
+      rl.all.map (fun r => Line.mk r.sort r.name (vals r) r.unit) := by
+    apply filterMap_map_some
+    intro r hr
+    simp [find_by_name rl.all hnd r hr]
+  have hlines : (run tr).lines = (rl.all.map (fun r => Line.mk r.sort r.name (vals r) r.unit)).mergeSort
+      (fun a b => decide (a.sort ≤ b.sort)) ∧ (run tr).status = .ok ∧ (run tr).count = some (run tr).lines.length := by
+    unfold run Cli.run
+    have : connect tr Gen.products Gen.types C12.fam = C11.conn tr := rfl
+    rw [this, hc]
+    simp only
+    rw [hst]
+    simp only [linesOf, collect_complete rl.all vals hnd, hfm]
+    simp
+  have hlen : (run tr).lines.length = rl.len := by
+    rw [hlines.1, List.length_mergeSort, List.length_map]; simp [RegList.all, RegList.len]; omega
+  refine ⟨hlines.2.1, by rw [hlines.2.2, hlen], hlen, ?_⟩
+  intro r hr
+  rw [hlines.1]
+  apply (List.mergeSort_perm _ _).mem_iff.mpr
+  exact List.mem_map_of_mem (f := fun r => Line.mk r.sort r.name (vals r) r.unit) hr
+
 /-- non-vacuity: a BMV 700 whose device answers every register with one byte: 27 lines, sorted; the same
     device falling silent: the error, no lines -/
 def healthy : Transport := ⟨.ok (), .ok 0x203, fun _ => .ok [1]⟩
@@ -136,5 +190,6 @@ def dead : Transport := ⟨.ok (), .ok 0x203, fun a => if a = 0x0100 then .ok [1
 example : (run healthy).status = .ok := by decide +kernel
 example : (collect (stream healthy Gen.enums Gen.fieldLists none (C12.sel 0x203).1 {}).1).length = 27 := by decide +kernel
 example : run dead = ⟨.fetchError, some 0, []⟩ := by decide +kernel
+example : C11.conn healthy = .ok (0x203, (C12.sel 0x203).1) ∧ (C12.sel 0x203).1.len = 27 := by decide +kernel
 
 end Victron.C20
